@@ -8,13 +8,17 @@
 /// assumption, i.e. the first failing obligation would cut the path and mask every later obligation on it
 /// (in the shared page-table harnesses an earlier `VP[C10]` failure hid a later `VP[C01]` one).  The runner
 /// reads `VP[..]` covers as: SATISFIED = the obligation is violated (with a concrete witness), UNSATISFIABLE /
-/// UNREACHABLE = it holds.  In a native replay build (`cfg(test)`) the same macro is a plain `assert!`.
+/// UNREACHABLE = it holds.  In a native replay build (`cfg(test)`) the same macro prints `VIOLATED VP[..]: ..` and
+/// goes on (non-cutting as well: one native run reports every obligation the concrete input violates, also when an
+/// obligation of another property fails first).
 macro_rules! vp {
     ($id:ident, $cond:expr, $msg:literal) => {{
         #[cfg(not(test))]
         kani::cover(!($cond), concat!("VP[", stringify!($id), "]: ", $msg));
         #[cfg(test)]
-        assert!($cond, concat!("VP[", stringify!($id), "]: ", $msg));
+        if !($cond) {
+            std::eprintln!("VIOLATED {}", concat!("VP[", stringify!($id), "]: ", $msg));
+        }
     }};
 }
 pub(crate) use vp;
